@@ -477,8 +477,10 @@ static void xcorr_auto_case(Ctx& ctx, int n) {
 // (process and conv) is held to the per-sample bound |err_i| <= (nh+8)*eps*sum_k |c[k]||x[i-k]| that every double-precision dot
 // product meets in any summation order - a loud sample may only disturb the outputs it is a term of.  (FftFilter is allowed its
 // block-level bound.)  One call of 16..20 nh samples with nh >= 256.
-static void burst_case(Ctx& ctx, bool cplx, int nh, int len, const std::string& letter, int pos) {
-    const Sig c = coef_letter("dense", 0, nh, cplx);
+static void burst_case(Ctx& ctx, bool cplx, int nh, int len, const std::string& letter, int pos, bool equal_taps = false) {
+    Sig c = coef_letter("dense", 0, nh, cplx);
+    if (equal_taps)   // boxcar: every tap is the same number (the FIR form of a moving average)
+        for (int k = 0; k < nh; ++k) put(c, (size_t)k, 1.0 / nh, -0.5 / nh, cplx);
     Sig x;
     x.resize((size_t)len);
     for (int i = 0; i < len; ++i) {
@@ -1328,6 +1330,16 @@ int main(int argc, char** argv) {
                         if (!ctx.take("fir.burst", P().kv("cplx", cplx).kv("nh", nh).kv("len", len).kv("in", lt).kv("pos", pos))) continue;
                         burst_case(ctx, cplx != 0, nh, len, lt, pos);
                     }
+
+    // ---- the same with all-equal taps (boxcar / moving-average coefficient vectors, 8..512 taps)
+    for (int cplx = 0; cplx < 2; ++cplx)
+        for (int nh : {8, 9, 16, 64, 257, 512})
+            for (const char* lt : {"spike1e8", "spike1e12", "burst100"})
+                for (int pos : {nh / 2, 5 * nh + 3}) {
+                    const int len = 18 * nh + 5;
+                    if (!ctx.take("fir.burst", P().kv("cplx", cplx).kv("nh", nh).kv("len", len).kv("in", lt).kv("pos", pos).kv("taps", "equal"))) continue;
+                    burst_case(ctx, cplx != 0, nh, len, lt, pos, true);
+                }
 
     // ---- FirFilter fed in several calls with changing frame lengths
     {
